@@ -130,8 +130,7 @@ def compare(case, obs, model, probes):
     logs = impl_log_by_event(obs)
     ticker_seen = {}
     for k, name in enumerate(probes):
-        (code, head), rows = model[k][0], model[k][1]
-        code, head = model[k][0][0], model[k][0][1]
+        code, head, rows = model[k]
         o = iobs[k]
         ilog = sorted(logs.get(k, []))
         for e in ilog:
